@@ -97,6 +97,8 @@ def compare(prog, impl_out, model_out):
         mo = model_out[i] if i < len(model_out) else '<missing>'
         if io.startswith('EXC:'):
             return (i, io, mo)
+        if io == 'undef' and mo == 'undef':
+            return None     # both sides cannot answer from here on (cyclic relation)
         if io == 'undef':
             # the implementation recursed without bound at command i; the model must be undefined at
             # its next observation (times are only evaluated there)
@@ -152,7 +154,10 @@ def _drop(prog, i):
         c = json.loads(json.dumps(c))
         if j > i:
             if creates_handle and c[0] == 'op' and c[9] is not None:
-                if c[9][0] == h:
+                if isinstance(c[9][0], list):
+                    hs = [x - 1 if x > h else x for x in c[9][0] if x != h]
+                    c[9] = [hs, c[9][1]] if hs else None
+                elif c[9][0] == h:
                     c[9] = None
                 elif c[9][0] > h:
                     c[9][0] -= 1
